@@ -43,6 +43,9 @@ type Path struct {
 	StopBlock *ssa.BasicBlock
 	Blocks    []int
 	KeyTerm   map[string]*Term // shared: the term behind every assumption key
+	// PhiIn: for a path that stops at a block (loop header), the value each phi of that block
+	// receives from this path: the loop's per-iteration transfer function.
+	PhiIn map[*ssa.Phi]AV
 }
 
 // Assumed returns the assumed truth of a condition key (normalised) and whether it was assumed.
@@ -296,6 +299,25 @@ func (w *walker) block(s *wstate, b, prev *ssa.BasicBlock, depth int) {
 		}
 		if w.cfg.StopAt != nil && prev != nil && w.cfg.StopAt(b) {
 			w.emit(s, "stop", nil, nil, b)
+			if n := len(w.paths); n > 0 && w.paths[n-1].Exit == "stop" {
+				pin := map[*ssa.Phi]AV{}
+				idx := -1
+				for i, p := range b.Preds {
+					if p == prev {
+						idx = i
+					}
+				}
+				for _, in := range b.Instrs {
+					ph, ok := in.(*ssa.Phi)
+					if !ok {
+						break
+					}
+					if idx >= 0 {
+						pin[ph] = w.val(s, ph.Edges[idx])
+					}
+				}
+				w.paths[n-1].PhiIn = pin
+			}
 			return
 		}
 		s.visits[b.Index]++
